@@ -162,6 +162,22 @@ PROPS = {
                                         "for the decrypt expanded-key XTS entry points equal raw keys cannot be recognised from the (different) schedules; the statement "
                                         "quantifies over identical pre-expanded arrays, which is what is generated"],
     },
+    "C16": {
+        "title": "Invalid arguments are refused without side effects; legacy and isal_ APIs agree",
+        "variant": "default",
+        "quick": {"cases": 400000},
+        "thorough": {"cases": 12000000},
+        "rule": "rapidcheck cases over the catalog of all isal_ entry points in three modes: (1) a random non-empty subset of the pointer arguments set to NULL "
+                "(only NULLs the documentation defines; data pointers with a zero length etc. are left out) with every other pointer argument made inaccessible "
+                "(PROT_NONE) and every output snapshotted; (2) each scalar argument at the boundary values of its documented domain (CBC/XTS/GCM lengths, tag "
+                "lengths, rolling-hash window), optionally combined with NULLs; (3) fully valid random calls mirrored through the deprecated legacy entry point. "
+                "Oracle: spec table transcribed from the headers and the error enum: >=1 invalid argument => non-zero code drawn from the codes of the invalid "
+                "arguments present, no fault, all outputs unchanged; boundary values inside the domain and valid calls => 0, no fault; legacy result == isal_ "
+                "result. Non-trivial = >=2 invalid arguments, a scalar boundary case, or a legacy differential. Distinct = hash of the case JSON.",
+        "assumptions": COMMON_ASSUME + ["invalid hash flags are the documented exception (context returned with its error field set) and are judged by C11",
+                                        "valid calls at len = GCM max (2^39-257) cannot be executed (no such buffer); only the rejecting side max+1 is executed",
+                                        "values the documentation leaves open (rolling-hash w = 0, NULL data pointer with zero length, mask_gen shift >= 32) are not generated"],
+    },
 }
 
 # properties not (yet) claimed; kept current as checks are added
